@@ -81,7 +81,7 @@ package transport
 //@ ensures !(key in c.tracked) && held(c.mu) == 0
 //@ ensures forall k string :: k != key ==> (k in c.tracked) == old(k in c.tracked) && c.tracked[k] == old(c.tracked[k])
 
-//@ func (c *Chunk) addLocked [C15]
+//@ func (c *Chunk) addLocked [C15 C14]
 //@ noframe
 //@ nobounds
 //@ requires c.tracked != nil && chunk.ChunkId < MaxUint64 && !gRecvFinalized && !rsm.gStreamValid && held(c.mu) == 0
